@@ -118,6 +118,7 @@ type Run struct {
 	started  time.Time
 	pathsN   int64
 	overrideFns map[*ssa.Function]*ssa.Function
+	stable      map[string]string
 }
 
 // HarnessCfg describes one harness exploration.
